@@ -159,37 +159,39 @@ theorem foldl_applyOut_delay (wt : K → K) (ct : K) (outs : List Out) :
     simp only [List.foldl_cons]
     rw [ih, applyOut_delay]
 
-/-- The hold-up accumulated so far is at least `d0`, and the polling loop's own count of the time it has slept is
-not negative. -/
-structure Held (w : World K) (d0 : K) : Prop where
-  delay : d0 ≤ w.delay
-  poll : ∀ bell uc hand d, w.pc = .userPoll bell uc hand d → 0 ≤ d
+/-- A law of the accumulated hold-up: `D` is a predicate on the delay, `Q` one on the polling loop's own count of
+the time it has slept; the count starts in `Q`, a poll keeps it there, and adding a count in `Q` to a delay in `D`
+gives a delay in `D`. -/
+structure DelayLaw (D Q : K → Prop) : Prop where
+  zero : Q W0
+  step : ∀ d, Q d → Q (d + Num.ofQ waitSleepTime)
+  add : ∀ x d, D x → Q d → D (x + d)
 
-theorem Held.of_eq {w w' : World K} {d0 : K} (h : Held w d0) (h1 : w'.delay = w.delay) (h2 : w'.pc = w.pc) :
-    Held w' d0 :=
+/-- The world obeys the law now. -/
+structure Kept (D Q : K → Prop) (w : World K) : Prop where
+  delay : D w.delay
+  poll : ∀ bell uc hand d, w.pc = .userPoll bell uc hand d → Q d
+
+variable {D Q : K → Prop}
+
+theorem Kept.of_eq {w w' : World K} (h : Kept D Q w) (h1 : w'.delay = w.delay) (h2 : w'.pc = w.pc) : Kept D Q w' :=
   { delay := (by rw [h1]; exact h.delay), poll := (by rw [h2]; exact h.poll) }
 
-theorem Held.of_pc {w w' : World K} {d0 : K} (h : d0 ≤ w.delay) (h1 : w'.delay = w.delay)
-    (h2 : ∀ bell uc hand d, w'.pc ≠ .userPoll bell uc hand d) : Held w' d0 :=
+theorem Kept.of_pc {w w' : World K} (h : D w.delay) (h1 : w'.delay = w.delay)
+    (h2 : ∀ bell uc hand d, w'.pc ≠ .userPoll bell uc hand d) : Kept D Q w' :=
   { delay := (by rw [h1]; exact h), poll := (fun bell uc hand d e => absurd e (h2 bell uc hand d)) }
 
-theorem finishTick_held (wt : K → K) (w : World K) (bell : Nat) (uc : Bool) (d0 : K) (h : d0 ≤ w.delay) :
-    Held (w.finishTick wt bell uc).1 d0 := by
+theorem finishTick_kept (wt : K → K) (w : World K) (bell : Nat) (uc : Bool) (h : D w.delay) :
+    Kept D Q (w.finishTick wt bell uc).1 := by
   unfold World.finishTick
   simp only []
   have h1 := foldl_applyOut_delay wt w.now (w.bot.tickEnd bell uc).2 ({ w with bot := (w.bot.tickEnd bell uc).1 } : World K)
   split
-  · exact Held.of_pc h h1 (by intro _ _ _ _ e; cases e)
-  · exact Held.of_pc h h1 (by intro _ _ _ _ e; cases e)
+  · exact Kept.of_pc h h1 (by intro _ _ _ _ e; cases e)
+  · exact Kept.of_pc h h1 (by intro _ _ _ _ e; cases e)
 
-theorem W0_nonneg : (0 : K) ≤ W0 := by
-  simp [W0, num_ofNat]
-
-theorem poll_nonneg : (0 : K) ≤ Num.ofQ waitSleepTime := by
-  simp [num_ofQ, waitSleepTime]
-
-theorem afterInner_held (wt : K → K) (w : World K) (bell : Nat) (uc hand : Bool) (d : K) (js : Bool) (d0 : K)
-    (hd : 0 ≤ d) (h : d0 ≤ w.delay) : Held (w.afterInner wt bell uc hand d js).1 d0 := by
+theorem afterInner_kept (L : DelayLaw D Q) (wt : K → K) (w : World K) (bell : Nat) (uc hand : Bool) (d : K) (js : Bool)
+    (hd : Q d) (h : D w.delay) : Kept D Q (w.afterInner wt bell uc hand d js).1 := by
   unfold World.afterInner
   split
   · rename_i wr hw
@@ -197,18 +199,17 @@ theorem afterInner_held (wt : K → K) (w : World K) (bell : Nat) (uc hand : Boo
     split
     · simp only []
       split
-      · apply finishTick_held
-        show d0 ≤ (if Num.eqb d W0 = true then wr else { wr with delay := wr.delay + d }).delay
+      · apply finishTick_kept
+        show D (if Num.eqb d W0 = true then wr else { wr with delay := wr.delay + d }).delay
         rw [hwd] at h
         split
         · exact h
-        · show d0 ≤ wr.delay + d
-          linarith
+        · exact L.add _ _ h hd
       · exact { delay := h, poll := (by intro _ _ _ d' e; cases e; exact hd) }
-    · apply finishTick_held
-      show d0 ≤ wr.delay
+    · apply finishTick_kept
+      show D wr.delay
       rw [← hwd]; exact h
-  · exact finishTick_held wt w bell uc d0 h
+  · exact finishTick_kept wt w bell uc h
 
 theorem beginWait_held (w : World K) (bell : Nat) (uc hand : Bool) :
     (w.beginWait bell uc hand).1.delay = w.delay ∧
@@ -221,8 +222,8 @@ theorem beginWait_held (w : World K) (bell : Nat) (uc hand : Bool) :
     | none => simp only []; split <;> exact ⟨by simp [World.delay, hw], by intro _ _ _ _ e; cases e⟩
     | some wr => simp only []; split <;> exact ⟨by simp [World.delay, hw], by intro _ _ _ _ e; cases e⟩
 
-/-- One step of the main thread never lowers the hold-up. -/
-theorem mainStep_held (wt : K → K) (w : World K) (d0 : K) (h : Held w d0) : Held (w.mainStep wt).1 d0 := by
+/-- One step of the main thread keeps the law. -/
+theorem mainStep_kept (L : DelayLaw D Q) (wt : K → K) (w : World K) (h : Kept D Q w) : Kept D Q (w.mainStep wt).1 := by
   unfold World.mainStep
   split
   · exact h
@@ -232,38 +233,38 @@ theorem mainStep_held (wt : K → K) (w : World K) (d0 : K) (h : Held w d0) : He
         · simp only []
           have h1 := fun ct => foldl_applyOut_delay wt ct w.bot.lookTo.2 ({ w with bot := w.bot.lookTo.1 } : World K)
           split
-          · exact Held.of_pc h.delay (h1 _) (by intro _ _ _ _ e; cases e)
-          · exact Held.of_pc h.delay (h1 _) (by intro _ _ _ _ e; cases e)
-        · exact Held.of_pc h.delay rfl (by intro _ _ _ _ e; cases e)
-      · exact Held.of_pc h.delay rfl (by intro _ _ _ _ e; cases e)
-    · exact Held.of_pc h.delay rfl (by intro _ _ _ _ e; cases e)
-  · exact Held.of_pc h.delay rfl (by intro _ _ _ _ e; cases e)
+          · exact Kept.of_pc h.delay (h1 _) (by intro _ _ _ _ e; cases e)
+          · exact Kept.of_pc h.delay (h1 _) (by intro _ _ _ _ e; cases e)
+        · exact Kept.of_pc h.delay rfl (by intro _ _ _ _ e; cases e)
+      · exact Kept.of_pc h.delay rfl (by intro _ _ _ _ e; cases e)
+    · exact Kept.of_pc h.delay rfl (by intro _ _ _ _ e; cases e)
+  · exact Kept.of_pc h.delay rfl (by intro _ _ _ _ e; cases e)
   · split
-    · exact Held.of_pc h.delay rfl (by intro _ _ _ _ e; cases e)
-    · refine Held.of_pc h.delay (foldl_applyOut_delay wt w.now _ ({ w with pc := .ringCheck } : World K)) ?_
+    · exact Kept.of_pc h.delay rfl (by intro _ _ _ _ e; cases e)
+    · refine Kept.of_pc h.delay (foldl_applyOut_delay wt w.now _ ({ w with pc := .ringCheck } : World K)) ?_
       rw [foldl_applyOut_pc]
       intro _ _ _ _ e; cases e
   · split
-    · exact Held.of_pc h.delay rfl (by intro _ _ _ _ e; cases e)
-    · exact Held.of_pc h.delay rfl (by intro _ _ _ _ e; cases e)
+    · exact Kept.of_pc h.delay rfl (by intro _ _ _ _ e; cases e)
+    · exact Kept.of_pc h.delay rfl (by intro _ _ _ _ e; cases e)
   · split
     · split
-      · exact Held.of_pc h.delay rfl (by intro _ _ _ _ e; cases e)
+      · exact Kept.of_pc h.delay rfl (by intro _ _ _ _ e; cases e)
       · obtain ⟨b1, b2⟩ := beginWait_held w _ _ w.bot.hand
-        exact Held.of_pc h.delay b1 b2
-    · refine Held.of_pc h.delay (foldl_applyOut_delay wt w.now _ ({ w with pc := .outerTop } : World K)) ?_
+        exact Kept.of_pc h.delay b1 b2
+    · refine Kept.of_pc h.delay (foldl_applyOut_delay wt w.now _ ({ w with pc := .outerTop } : World K)) ?_
       rw [foldl_applyOut_pc]
       intro _ _ _ _ e; cases e
   · split
     · exact h
-    · exact afterInner_held wt w _ _ _ _ _ d0 W0_nonneg h.delay
-  · apply afterInner_held _ _ _ _ _ _ _ _ W0_nonneg
+    · exact afterInner_kept L wt w _ _ _ _ _ L.zero h.delay
+  · apply afterInner_kept L _ _ _ _ _ _ _ L.zero
     split
     · exact h.delay
     · exact h.delay
   · rename_i bell uc hand d hpc
-    exact afterInner_held wt w _ _ _ _ _ d0 (add_nonneg (h.poll _ _ _ _ hpc) poll_nonneg) h.delay
-  · exact Held.of_pc h.delay rfl (by intro _ _ _ _ e; cases e)
+    exact afterInner_kept L wt w _ _ _ _ _ (L.step _ (h.poll _ _ _ _ hpc)) h.delay
+  · exact Kept.of_pc h.delay rfl (by intro _ _ _ _ e; cases e)
 
 theorem lookToSuspends_wait (w : World K) (m : Msg) (s : Susp K) (wr : WaitR K)
     (h : w.lookToSuspends m = some (s, wr)) : w.rh.wait = some wr := by
@@ -321,11 +322,11 @@ theorem deliver_delay (wt : K → K) (w : World K) (e : Ev) : (World.deliver wt 
       · exact h1
       · exact h1
 
-theorem deliver_held (wt : K → K) (w : World K) (e : Ev) (d0 : K) (h : Held w d0) : Held (World.deliver wt w e) d0 :=
+theorem deliver_kept (wt : K → K) (w : World K) (e : Ev) (h : Kept D Q w) : Kept D Q (World.deliver wt w e) :=
   h.of_eq (deliver_delay wt w e) (deliver_never_rings wt w e).1
 
-theorem sleep_go_held (wt : K → K) (limit : K) (d0 : K) :
-    ∀ (events : List (K × Ev)) (w : World K), Held w d0 → Held (World.sleep.go wt limit w events).1 d0 := by
+theorem sleep_go_kept (wt : K → K) (limit : K) :
+    ∀ (events : List (K × Ev)) (w : World K), Kept D Q w → Kept D Q (World.sleep.go wt limit w events).1 := by
   intro events
   induction events with
   | nil => intro w h; exact h
@@ -335,39 +336,53 @@ theorem sleep_go_held (wt : K → K) (limit : K) (d0 : K) :
     unfold World.sleep.go
     split
     · apply ih
-      apply deliver_held
+      apply deliver_kept
       split
       · exact h.of_eq rfl rfl
       · exact h
     · exact h
 
-theorem sleep_held (wt : K → K) (endTime : K) (w : World K) (d : K) (events : List (K × Ev)) (d0 : K) (h : Held w d0) :
-    Held (World.sleep wt endTime w d events).1 d0 := by
+theorem sleep_kept (wt : K → K) (endTime : K) (w : World K) (d : K) (events : List (K × Ev)) (h : Kept D Q w) :
+    Kept D Q (World.sleep wt endTime w d events).1 := by
   unfold World.sleep
   simp only []
   split
-  · exact sleep_go_held wt endTime d0 events w h
-  · exact (sleep_go_held wt (w.now + d) d0 events w h).of_eq rfl rfl
+  · exact sleep_go_kept wt endTime events w h
+  · exact (sleep_go_kept wt (w.now + d) events w h).of_eq rfl rfl
 
-theorem run_held (wt : K → K) (endTime : K) (d0 : K) :
-    ∀ (fuel : Nat) (w : World K) (events : List (K × Ev)), Held w d0 → Held (World.run wt endTime fuel w events).1 d0 := by
+/-- The law holds in every state of every run, whatever the events. -/
+theorem run_kept (L : DelayLaw D Q) (wt : K → K) (endTime : K) :
+    ∀ (fuel : Nat) (w : World K) (events : List (K × Ev)), Kept D Q w → Kept D Q (World.run wt endTime fuel w events).1 := by
   intro fuel
   induction fuel with
   | zero => intro w events h; exact h
   | succ fuel ih =>
     intro w events h
     unfold World.run
-    have hm := mainStep_held wt w d0 h
+    have hm := mainStep_kept L wt w h
     split
     · rename_i w1 heq; rw [heq] at hm; exact hm
     · rename_i w1 heq; rw [heq] at hm; exact ih w1 events hm
     · rename_i w1 d heq
       rw [heq] at hm
-      have hsl := sleep_held wt endTime w1 d events d0 hm
+      have hsl := sleep_kept wt endTime w1 d events hm
       simp only []
       split
       · exact hsl
       · exact ih _ _ hsl
+
+theorem W0_nonneg : (0 : K) ≤ W0 := by
+  simp [W0, num_ofNat]
+
+theorem poll_nonneg : (0 : K) ≤ Num.ofQ waitSleepTime := by
+  simp [num_ofQ, waitSleepTime]
+
+/-- The hold-up accumulated so far is at least `d0`, and the polling loop's own count of the time it has slept is
+not negative. -/
+abbrev Held (w : World K) (d0 : K) : Prop := Kept (fun x => d0 ≤ x) (fun d => 0 ≤ d) w
+
+theorem heldLaw (d0 : K) : DelayLaw (fun x : K => d0 ≤ x) (fun d => 0 ≤ d) :=
+  { zero := W0_nonneg, step := fun _ h => add_nonneg h poll_nonneg, add := fun _ _ h1 h2 => by linarith }
 
 /-- **A hold-up is never forgotten.**  Whatever hold-up the band has caused so far stays in every later bell time:
 in every state of every run - whatever is struck and whenever, whoever comes, goes, takes or drops a rope, whatever
@@ -377,13 +392,32 @@ so everything after a hold-up is later by at least that hold-up, for good.) -/
 theorem hold_up_never_forgotten (wt : K → K) (endTime : K) (fuel : Nat) (w : World K) (events : List (K × Ev))
     (hpc : ∀ bell uc hand d, w.pc = .userPoll bell uc hand d → 0 ≤ d) :
     w.delay ≤ (World.run wt endTime fuel w events).1.delay :=
-  (run_held wt endTime w.delay fuel w events { delay := le_refl _, poll := hpc }).delay
+  (run_kept (heldLaw w.delay) wt endTime fuel w events { delay := le_refl _, poll := hpc }).delay
 
 /-- From the moment the session is joined (the main thread is not yet polling for anyone). -/
 theorem hold_up_monotone_from_start (wt : K → K) (endTime : K) (fuel : Nat) (now : K) (bot : Bot) (rh : Rh K)
     (tape : List (K × K)) (lt : Option K) (events : List (K × Ev)) :
     (World.init now bot rh tape lt).delay ≤ (World.run wt endTime fuel (World.init now bot rh tape lt) events).1.delay :=
   hold_up_never_forgotten wt endTime fuel _ events (by intro _ _ _ _ e; cases e)
+
+/-- The law "a whole number of polls". -/
+theorem pollsLaw (d0 : K) :
+    DelayLaw (fun x : K => ∃ n : ℕ, x = d0 + n * Num.ofQ waitSleepTime) (fun d => ∃ m : ℕ, d = m * Num.ofQ waitSleepTime) :=
+  { zero := ⟨0, by simp [W0, num_ofNat]⟩
+    step := (by
+      rintro d ⟨m, rfl⟩
+      exact ⟨m + 1, by push_cast; ring⟩)
+    add := (by
+      rintro x d ⟨n, rfl⟩ ⟨m, rfl⟩
+      exact ⟨n + m, by push_cast; ring⟩) }
+
+/-- **The hold-up grows by whole polls only.**  In every state of every run, for all events, the accumulated delay
+is what it was plus a whole number of the 10 ms polls the main thread slept while it waited for somebody: nothing
+else - no handler, no Look To, no setting, no rounding of a clock difference - ever enters it. -/
+theorem hold_up_is_whole_polls (wt : K → K) (endTime : K) (fuel : Nat) (w : World K) (events : List (K × Ev))
+    (hpc : ∀ bell uc hand d, w.pc = .userPoll bell uc hand d → ∃ m : ℕ, d = m * Num.ofQ waitSleepTime) :
+    ∃ n : ℕ, (World.run wt endTime fuel w events).1.delay = w.delay + n * Num.ofQ waitSleepTime :=
+  (run_kept (pollsLaw w.delay) wt endTime fuel w events { delay := ⟨0, by simp⟩, poll := hpc }).delay
 
 /-- Non-vacuity: a band 0.37 s behind, the main thread two polls into waiting for bell 3 - `Held`. -/
 example : ∃ w : World ℚ, Held w (37 / 100) ∧ w.pc = .userPoll 3 true true (1 / 50) := by
